@@ -50,6 +50,8 @@ def generate(ctx):
         names = rng.choice(["plain", "plain", "int"])
         a = falib.rand_fa(rng, names=names, max_states=4)
         r = i % 5
+        if r == 4 and rng.random() < 0.7:
+            a = falib.rand_big_dfa(rng)
         if r in (0, 1):
             b = variant(rng, a)
         elif r == 2:
